@@ -189,6 +189,9 @@ class ProgressivelyTerminalDecider(BaseDecider):
 
         production_weights = self.grammar.get_weights()
         weights = [w(alt) * production_weights.get(alt, 1.0) for alt in alternatives]
+        if not any(weights):
+            # The depth heuristic ruled every alternative out: fall back to the production weights alone.
+            weights = [production_weights.get(alt, 1.0) for alt in alternatives]
         return self.random.choice_weighted(alternatives, weights)
 
 
